@@ -14,16 +14,25 @@ SUBDELIMS = "!$&'()*+,;=:@[]"
 INVALID_RAW = "\"<>^`{|}\\"
 HEX = "0123456789abcdefABCDEF"
 
-QUERY_NAMES = ["a", "b", "id", "secret", "access_token", "x y", "k&v", "q"]
-STRIP_NAMES = ["secret", "access_token", "a", "x y", "k&v", "nope", "id"]
+QUERY_NAMES = ["a", "b", "id", "secret", "access_token", "x y", "k&v", "q", "p+q", "e=f", "100%", ""]
+STRIP_NAMES = ["secret", "access_token", "a", "x y", "k&v", "nope", "id", "p+q", "e=f", "100%", ""]
 
-METHODS = ["GET"] * 8 + ["POST"] * 5 + ["PUT", "DELETE", "PATCH", "HEAD", "OPTIONS", "PURGE"]
+METHODS = ["GET"] * 8 + ["POST"] * 5 + ["PUT", "DELETE", "PATCH", "HEAD", "OPTIONS", "PURGE", "get", "Post",
+                                         "M-SEARCH", "X!#$%&'*+-.^_`|~9"]
+FWD_METHODS = ["GET", "POST", "PATCH", "DELETE", "get", "PURGE", "Custom-Tok"]
+
+# hop-by-hop header names (RFC 7230 6.1 / net/http/httputil) a client may send, with plausible values
+HOP_NAMES = {"Keep-Alive": ["timeout=5, max=100"], "Proxy-Authorization": ["Basic dXNlcjpwdw=="],
+             "Proxy-Connection": ["keep-alive"], "Proxy-Authenticate": ["Basic realm=x"],
+             "Te": ["trailers", "gzip", "trailers, deflate;q=0.5", "TRAILERS"], "Upgrade": ["websocket", "h2c"]}
 
 CLIENT_NAMES = ["X-User", "X-Request-Id", "Authorization", "X-Api-Key", "Accept", "X_Forwarded_Uri", "Cookie",
                 "X-Forwarded-Foo", "Range"]
 FWD_NAMES = ["X-Forwarded-For", "Forwarded", "X-Forwarded-Proto", "X-Forwarded-Host", "X-Forwarded-Uri",
              "X-Forwarded-Path", "X-Forwarded-Method"]
-PIPE_NAMES = ["X-User", "X-Request-Id", "Authorization", "X-Api-Key", "X-Id-Token", "X-Groups", "Accept"]
+PIPE_NAMES = ["X-User", "X-Request-Id", "Authorization", "X-Api-Key", "X-Id-Token", "X-Groups", "Accept",
+              "User-Agent", "Accept-Encoding", "Cookie", "Content-Type", "Content-Length", "Keep-Alive",
+              "Proxy-Authorization"]
 VALUE_CHARS = "abcdefghijklmnopqrstuvwxyzABCDEFGHIJKLMNOPQRSTUVWXYZ0123456789-._~:/=,; @()[]<>!?*+%&|"
 IPS = ["1.2.3.4", "10.0.0.1", "192.168.7.9", "203.0.113.5", "2001:db8::1"]
 
@@ -73,7 +82,7 @@ def gen_segment(rng, weird):
 
 
 def gen_path(rng, base=None, malformed=False):
-    weird = rng.random() < 0.15
+    weird = rng.random() < 0.3
     segs = []
     if base is not None and rng.random() < 0.8:
         p = base
@@ -164,6 +173,7 @@ def gen_case(rng, flavour=None):
     """flavour: None (mixed) | 'url' | 'headers' | 'reject'"""
     trusted = rng.choice(TRUSTED)
     peer = rng.choice(PEERS)
+    tls = rng.random() < 0.25
     base = rng.choice([None, "/api", "/api/v1", "/files"])
     malformed = (flavour == "reject" and rng.random() < 0.5) or rng.random() < 0.02
     target = gen_target(rng, base, malformed)
@@ -182,6 +192,17 @@ def gen_case(rng, flavour=None):
             rewrite["add"] = rng.choice(ADD_PREFIXES[:7]) if r < 0.9 else rng.choice(ADD_PREFIXES[7:])
         if rng.random() < 0.5:
             rewrite["strip_q"] = rng.sample(STRIP_NAMES, rng.choice([1, 1, 2, 3]))
+            if "?" not in target and rng.random() < 0.5:
+                target += "?"
+            if rng.random() < 0.35:
+                # listed names several times, in several spellings, between other parameters
+                extra = []
+                for _ in range(rng.choice([2, 3, 4])):
+                    extra.append(enc_q(rng, rng.choice(rewrite["strip_q"])) + rng.choice(["=1", "=admin", "", "="]))
+                    if rng.random() < 0.5:
+                        extra.append(enc_q(rng, rng.choice(["page", "keep", "q"])) + "=2")
+                sep = "" if target.endswith("?") else ("&" if "?" in target else "?")
+                target += sep + "&".join(extra)
         # the rule-set document is JSON text: configuration strings are kept ASCII
         if any(ord(ch) > 126 or ord(ch) < 32 for ch in rewrite["strip"] + rewrite["add"]):
             rewrite["strip"] = "/api"
@@ -215,7 +236,7 @@ def gen_case(rng, flavour=None):
         elif n == "X-Forwarded-Proto":
             v = rng.choice(["https", "https", "http", "ftp"])
         elif n == "X-Forwarded-Host":
-            v = rng.choice(["public.example.com", "evil.example:8443"])
+            v = rng.choice(["public.example.com", "evil.example:8443", "DECOY"])
         elif n == "X-Forwarded-Uri":
             v = gen_target(rng, base, rng.random() < 0.05)
             if v.startswith("//") or "#" in v:
@@ -223,14 +244,18 @@ def gen_case(rng, flavour=None):
         elif n == "X-Forwarded-Path":
             v = gen_path(rng)
         else:
-            v = rng.choice(["GET", "POST", "PATCH", "DELETE"])
+            v = rng.choice(FWD_METHODS)
         headers.append([rand_case(rng, n), v])
+    for _ in range(rng.choice([0, 0, 0, 0, 1, 1, 2])):                 # hop-by-hop headers
+        n = rng.choice(sorted(HOP_NAMES))
+        headers.append([rand_case(rng, n), rng.choice(HOP_NAMES[n])])
     rng.shuffle(headers)
 
     # pipeline
     scripted = rng.random() < 0.5
     pheaders = []
-    client_names = [h[0] for h in headers if h[0].lower() not in ("user-agent", "accept-encoding", "range", "cookie")]
+    client_names = [h[0] for h in headers if h[0].lower() not in ("range", "te", "upgrade", "proxy-connection",
+                                                                  "proxy-authenticate")]
     for _ in range(rng.choice([0, 1, 1, 2, 2, 3, 4])):
         r = rng.random()
         if r < 0.45 and client_names:
@@ -245,13 +270,25 @@ def gen_case(rng, flavour=None):
             n = rand_case(rng, rng.choice(PIPE_NAMES))
         v = gen_value(rng)
         if n.lower() == "host":
-            v = rng.choice(["internal.svc", "internal.svc:8080", "public.example.com"])
+            v = rng.choice(["internal.svc", "internal.svc:8080", "public.example.com", "DECOY"])
+        if n.lower() == "content-length":
+            v = rng.choice(["0", "5", "12345"])
+        if n.lower() == "cookie":
+            v = rng.choice(["pipe=1", "session=good; x=y"])
         if scripted and rng.random() < 0.08:
             v = ""
         pheaders.append([n, v])
     if not scripted:
         # one real header finalizer per header; a JSON object per finalizer, so any casing is fine
         pass
+    if rng.random() < 0.2:
+        # the client declares headers hop-by-hop: its own ones, some the pipeline produces, standard tokens
+        pool = [h[0] for h in headers] + [h[0] for h in pheaders] + ["keep-alive", "close", "X-Not-Sent", "upgrade", "TE"]
+        toks = [rand_case(rng, rng.choice(pool)) for _ in range(rng.choice([1, 1, 2, 3]))]
+        sep = rng.choice([", ", ",", " , "])
+        headers.insert(rng.randrange(0, len(headers) + 1), [rand_case(rng, "Connection"), sep.join(toks)])
+        if rng.random() < 0.3:
+            headers.append([rand_case(rng, "connection"), rand_case(rng, rng.choice(pool))])
     cookies = []
     for _ in range(rng.choice([0, 0, 0, 1, 1, 2])):
         n = rng.choice(["session", "sid", "jwt", "theme"])
@@ -263,7 +300,7 @@ def gen_case(rng, flavour=None):
     method = rng.choice(METHODS)
     body = ""
     if (method not in ("GET", "HEAD", "OPTIONS") and rng.random() < 0.8) or (method == "GET" and rng.random() < 0.08):
-        n = rng.choice([1, 5, 11, 40, 200])
+        n = rng.choice([1, 5, 11, 40, 200, 200, 5000, 70000] if rng.random() < 0.1 else [1, 5, 11, 40, 200])
         if rng.random() < 0.5:
             body = "".join(chr(rng.randrange(0, 256)) for _ in range(n))
         else:
@@ -272,10 +309,13 @@ def gen_case(rng, flavour=None):
     if body and rng.random() < 0.5:
         headers.append(["Content-Type", rng.choice(["application/json", "application/octet-stream",
                                                     "application/x-www-form-urlencoded"])])
+    if body and not chunked and rng.random() < 0.04:
+        headers.append(["Expect", "100-continue"])
     req = {"method": method, "target": target,
-           "host": rng.choice(["example.com", "example.com", "svc.local:8080", "public.example.com", ""]),
+           "host": rng.choice(["example.com", "example.com", "svc.local:8080", "public.example.com", "", "DECOY"])
+           if rng.random() > 0.01 else rng.choice(["a,for=6.6.6.6;x", "h;proto=https", "x,y"]),
            "headers": headers, "body": body, "chunked": chunked}
-    return {"fam": "proxyfwd", "trusted": trusted, "peer": peer, "rule": rule, "pipe": pipe, "req": req}
+    return {"fam": "proxyfwd", "trusted": trusted, "tls": tls, "peer": peer, "rule": rule, "pipe": pipe, "req": req}
 
 
 def small_scope_cases():
@@ -292,7 +332,7 @@ def small_scope_cases():
                 if b > 32 and b != 127:
                     units.append(chr(b))
             for u in units:
-                cases.append({"fam": "proxyfwd", "trusted": None, "peer": "127.0.0.1",
+                cases.append({"fam": "proxyfwd", "trusted": None, "tls": False, "peer": "127.0.0.1",
                               "rule": {"slashes": slashes, "host": "ip", "rewrite": rewrite},
                               "pipe": {"headers": [], "cookies": [], "read_body": False, "scripted": True},
                               "req": {"method": "GET", "target": "/p/a" + u + "z", "host": "example.com",
